@@ -11,6 +11,7 @@ import SodiumModel.Model.Scalarmult
 import SodiumModel.Model.LadderRef10
 import SodiumModel.Model.Fe51
 import SodiumModel.Model.Ge25519Ref10
+import SodiumModel.Model.Fe25
 import SodiumModel.Driver.C06
 import SodiumModel.Driver.C07Ref
 namespace Sodium.Driver.C05
@@ -50,7 +51,31 @@ def multFe51 : Bytes → Bytes → Option Bytes := mult_ref10 Sodium.Model.Fe51.
 def viaLimbs (n p : Bytes) : Bool :=
   ((n ++ p).foldl (fun (a : Nat) (b : UInt8) => a + b.toNat) 0) % 4 == 0
 
-def mult (n p : Bytes) : Option Bytes := multFe51 n p     -- every call through the limb-level model (tools/props/c05.py runs the driver in parallel); viaLimbs / multSpec kept for reference
+/-- the ladder over BOTH limb-level models: the radix-2^51 model (`Model/Fe51.lean`, HAVE_TI_MODE builds) and the
+    radix-2^25.5 model (`Model/Fe25.lean` + the generated `Model/Fe25Gen.lean`, builds without 128-bit integers).
+    Both are proved equal to RFC 7748 (`C05Fe51.x25519_fe51_eq_rfc7748`, `C10Fe25.x25519_fe25_eq_rfc7748`), so they
+    agree; the driver nevertheless cross-checks them on every call.  A disagreement poisons the result (32 bytes
+    0xEE, which the C library never returns for these inputs by accident) and the `x25519` operation prints `MODEL-DISAGREE`. -/
+def x25519_both (t p : Bytes) : Bytes :=
+  let a := Sodium.Model.Fe51.x25519_fe51 t p
+  let b := Sodium.Model.Fe25.x25519_fe25 t p
+  if a == b then a else List.replicate 32 0xEE
+
+open Sodium.Model.Scalarmult in
+def multFe25 : Bytes → Bytes → Option Bytes := mult_ref10 Sodium.Model.Fe25.x25519_fe25
+
+open Sodium.Model.Scalarmult in
+def multBoth : Bytes → Bytes → Option Bytes := mult_ref10 x25519_both
+
+def mult (n p : Bytes) : Option Bytes := multBoth n p     -- every call through BOTH limb-level models (tools/props/c05.py runs the driver in parallel); viaLimbs / multSpec / multFe51 / multFe25 kept for reference
+
+/-- `x25519` operation: the two limb-level models separately, compared -/
+def x25519Line (n p : Bytes) : String :=
+  let a := Scalarmult.crypto_scalarmult_curve25519 multFe51 n p
+  let b := Scalarmult.crypto_scalarmult_curve25519 multFe25 n p
+  if a.1 == b.1 && a.2 == b.2 then
+    (if a.1 != 0 then i32s a.1 else s!"0 {toHex (a.2.getD [])}")
+  else s!"MODEL-DISAGREE fe51={if a.1 != 0 then i32s a.1 else toHex (a.2.getD [])} fe25={if b.1 != 0 then i32s b.1 else toHex (b.2.getD [])}"
 
 /-- `crypto_scalarmult_curve25519_base`: the model of `crypto_scalarmult_curve25519_ref10_base`
     (clamp, `ge25519_scalarmult_base`, `edwards_to_montgomery`, `fe25519_tobytes`) over the
@@ -140,7 +165,7 @@ def h2cAlg (alg : String) : Int32 :=
 
 def handle (op : String) (args : List String) : Option String :=
   match op, args with
-  | "x25519", [n, p] => do some (rcOut (Scalarmult.crypto_scalarmult_curve25519 mult (← ofHex n) (← ofHex p)))
+  | "x25519", [n, p] => do some (x25519Line (← ofHex n) (← ofHex p))
   | "x25519.base", [n] => do some (toHex (base (← ofHex n)))
   | "box.seed_keypair", [seed] => do
     let (_, pk, sk) := Scalarmult.crypto_box_seed_keypair sha512 base (← ofHex seed)
